@@ -25,6 +25,11 @@ CROSS_KEY = ("MustSucceed cross-scope: fields of independent scopes (a=0 with b=
              "first-fit needs the top position or leaves a gap")
 
 
+RECURSION_KEY = ("MustSucceed after RecursionError: add_field through a bit field whose values come from different "
+                 "levels of the hierarchy (a=0, b=1, c=2 with c defined under a=0 only) recurses without bound and "
+                 "leaves the field tree unusable")
+
+
 def bits(v):
     return [i for i in range(v.bit_length()) if (v >> i) & 1]
 
@@ -232,36 +237,35 @@ def execute(prog, label="replay"):
 
 
 # ---------------------------------------------------------------------------- small scope, exhaustive
-def small_programs(Ls, nmax, all_kinds_upto):
-    """every hierarchy of up to nmax fields: each field under the root or under a value (0/1) of an earlier
-    field (the last of three also under values of both earlier fields), names in canonical order with re-use
-    (sibling scopes legitimately, same/nested scopes as a clash), every kind of definition (length
-    None/1/2 x position None/0..L-1; only automatic positions when there are more than all_kinds_upto fields),
-    a tag on the last field or not, each field given the value 3 or not; then assign_fields."""
-    for L in Ls:
-        for n in range(1, nmax + 1):
-            kinds = [(ln, st) for ln in (None, 1, 2) for st in ([None] + list(range(L)))
-                     if n <= all_kinds_upto or st is None]
-            parent_choices = []
-            for i in range(n):
-                ch = [()]
-                for j in range(i):
-                    for v in (0, 1):
-                        ch.append(((j, v),))
-                if i == 2:
-                    for v in (0, 1):
-                        for w in (0, 1):
-                            ch.append(((0, v), (1, w)))
-                parent_choices.append(ch)
-            namings = [()]
-            for i in range(n):
-                namings = [nm + (c,) for nm in namings for c in "abc"[:min(i, len(set(nm))) + 1]]
-            for parents in itertools.product(*parent_choices):
-                for names in namings:
-                    for kd in itertools.product(kinds, repeat=n):
-                        for tag in (False, True):
-                            for vals in itertools.product((False, True), repeat=n):
-                                yield L, n, parents, names, kd, tag, vals
+def small_programs(domain):
+    """domain: list of (L, n, every_kind).  Every hierarchy of n fields in a bit field of length L: each field
+    under the root or under a value (0/1) of an earlier field (the last of three also under values of both
+    earlier fields), names in canonical order with re-use (sibling scopes legitimately, same/nested scopes as a
+    clash), every kind of definition (length None/1/2 x position None/0..L-1, or automatic positions only), a
+    tag on the last field or not, each field given the value 3 or not; then assign_fields."""
+    for (L, n, every_kind) in domain:
+        kinds = [(ln, st) for ln in (None, 1, 2) for st in ([None] + list(range(L)))
+                 if every_kind or st is None]
+        parent_choices = []
+        for i in range(n):
+            ch = [()]
+            for j in range(i):
+                for v in (0, 1):
+                    ch.append(((j, v),))
+            if i == 2:
+                for v in (0, 1):
+                    for w in (0, 1):
+                        ch.append(((0, v), (1, w)))
+            parent_choices.append(ch)
+        namings = [()]
+        for i in range(n):
+            namings = [nm + (c,) for nm in namings for c in "abc"[:min(i, len(set(nm))) + 1]]
+        for parents in itertools.product(*parent_choices):
+            for names in namings:
+                for kd in itertools.product(kinds, repeat=n):
+                    for tag in (False, True):
+                        for vals in itertools.product((False, True), repeat=n):
+                            yield L, n, parents, names, kd, tag, vals
 
 
 def run_small(case):
@@ -518,9 +522,8 @@ def key_of(tr, i, clauses):
         return EXACT_FIT_KEY
     if e[0] == "assign" and plain and clauses == ["MustSucceedCrossScopes"]:
         return CROSS_KEY
-    if "RecursionError" in classes:
-        return "%s %s after RecursionError (add_field in a scope whose values come from different tree levels)" % (
-            e[0], ",".join(clauses))
+    if "RecursionError" in classes and all(c.startswith("MustSucceed") for c in clauses):
+        return RECURSION_KEY
     return "%s %s len=%d raised=%s prog=%s" % (e[0], ",".join(clauses), tr["len"], ",".join(classes), digest(tr["prog"]))
 
 
@@ -548,8 +551,8 @@ def run(chk):
         r = chk.design("BitFieldDesign", "BitFieldDesign_cross.cfg", allow_error=True,
                        label="length 5, 5 fields, independent scopes: first-fit is expected to fragment")
         chk.extra["design_cross_scopes"] = (
-            "violates SuccessFirstFitCross only (first-fit leaves a gap when independent scopes cross; nested "
-            "hierarchies are not affected)" if (not r.ok and "SuccessFirstFitCross" in (r.error or ""))
+            "violates SuccessFirstFitCross only (first-fit leaves a gap when independent scopes cross; "
+            "tree-shaped hierarchies are not affected)" if (not r.ok and "SuccessFirstFitCross" in (r.error or ""))
             else "unexpected: %s" % (r.error or "no violation")[:200])
         if r.ok or "SuccessFirstFitCross" not in (r.error or ""):
             raise MachineryError("BitFieldDesign_cross: expected a violation of SuccessFirstFitCross, got %s"
@@ -580,14 +583,16 @@ def run(chk):
 
     for s in documented_examples():
         take(s, "example")
-    Ls, nmax, upto = chk.pick(((2, 3), 2, 2), ((1, 2, 3, 4), 3, 2))
-    cases = list(small_programs(Ls, nmax, upto))
+    dom = [(L, n, True) for L in chk.pick((2, 3), (1, 2, 3, 4)) for n in (1, 2)]
+    if not chk.quick:
+        dom.append((4, 3, False))
+    cases = list(small_programs(dom))
     # three fields with every kind of definition: too many to enumerate, sampled
-    extra3 = chk.pick(1500, 60000)
-    domain = ("length %s; up to %d fields, each under the root or under value 0/1 of an earlier field (the third "
-              "also under values of both); names a/b/c in canonical order with re-use; length None/1/2 x position "
-              "None/0..L-1 (%d fields: automatic positions only); tag on the last field or not; value 3 given to "
-              "each field or not; then assign_fields and the full table" % (list(Ls), nmax, nmax))
+    extra3 = chk.pick(1500, 20000)
+    domain = ("(length, fields, kinds) in %s; each field under the root or under value 0/1 of an earlier field (the "
+              "third also under values of both); names a/b/c in canonical order with re-use; kinds: length "
+              "None/1/2 x position None/0..L-1 (True) or automatic positions only (False); tag on the last field "
+              "or not; value 3 given to each field or not; then assign_fields and the full table" % (dom,))
     for c in cases:
         take(run_small(c), "small")
     chk.exhaustive = True
@@ -599,7 +604,7 @@ def run(chk):
         gen = small_case_random(rng, L)
         take(run_small(gen), "small3")
         n3 += 1
-    nrand = chk.pick(1600, 40000)
+    nrand = chk.pick(1600, 20000)
     every = chk.pick(400, 2000)
     for i in range(nrand):
         mode = "auto" if i % 5 < 2 else "mixed"
